@@ -93,6 +93,8 @@ def run(A, R: Report, thorough: bool):
             if isinstance(t, ast.Compare) and src(t.left) == iv and isinstance(t.ops[0], ast.Lt) and isinstance(t.comparators[0], ast.Constant):
                 k0 = t.comparators[0].value
         other_skips = [s_ for s_ in skips if not (isinstance(s_.test, ast.Compare) and src(s_.test.left) == iv and isinstance(s_.test.ops[0], (ast.Eq, ast.Lt)) and isinstance(s_.test.comparators[0], ast.Constant))]
+        # a skip by parameter kind is judged by R16.9 (only *args / **kwargs may be set aside)
+        other_skips = [s_ for s_ in other_skips if not (isinstance(s_.test, ast.Compare) and len(s_.test.ops) == 1 and src(s_.test.left).endswith('.kind'))]
         pos = [n for n in ast.walk(lp) if isinstance(n, ast.Assign) and isinstance(n.targets[0], ast.Subscript) and src(n.targets[0].slice) == argv and isinstance(n.value, ast.Subscript) and src(n.value.value) == 'args']
         problems = []
         bind_dict = None
@@ -227,9 +229,65 @@ def run(A, R: Report, thorough: bool):
             f'`{pretty(tg)[:120]}`: a stored entry whose value is falsy (0, [], "", False, None) is reported as missing, so only_cache look-ups and cached calls of such results miss',
             witness=[pretty(tg)[:200]], where=where(fget))
 
+    R.rule('R16.9', 'no test on the kind of a parameter leaves named parameters (positional-or-keyword, keyword-only) out of the normalisation', floor=1)
+    check_kind_filter(A, R, 'R16.9', fdec)
+
     from .c14 import check_load_handlers
     R.rule('R16.8', 'with a file cache, an entry that cannot be loaded is recomputed and stored again (the same binding keeps returning one value)', floor=2)
     check_load_handlers(A, R, 'R16.8')
+
+
+KINDS = ('POSITIONAL_ONLY', 'POSITIONAL_OR_KEYWORD', 'VAR_POSITIONAL', 'KEYWORD_ONLY', 'VAR_KEYWORD')
+
+
+def check_kind_filter(A, R, rid, fdec):
+    """The binding code (decorated and the helpers it calls) may tell parameters apart by `.kind` only to set *args / **kwargs aside: a filter
+    that drops keyword-only (or ordinary) parameters keeps their defaults out of the key, so `m(1)` and `m(1, flag=True)` get different keys."""
+    nodes = [(n, o) for n, o in A.nodes(fdec)]
+    tests = [(n, o) for n, o in nodes if isinstance(n, ast.Compare) and len(n.ops) == 1 and (src(n.left).endswith('.kind') or any(src(c_).endswith('.kind') for c_ in n.comparators))]
+    if not tests:
+        R.ok(rid, 'cached.decorated: parameter kinds', 'the normalisation does not look at parameter kinds: every named parameter is treated alike', where=where(fdec))
+        return
+    for t, o in tests:
+        construct = f'cached.decorated: `{src(t)[:60]}`'
+        other = t.comparators[0] if src(t.left).endswith('.kind') else t.left
+        vals = [other] if not isinstance(other, (ast.Tuple, ast.List, ast.Set)) else list(other.elts)
+        ks = [src(v).split('.')[-1] for v in vals]
+        if any(k not in KINDS for k in ks):
+            R.undecided(rid, construct, 'kinds compared with are not literal Parameter kinds', where=where(o, t))
+            continue
+        op = t.ops[0]
+        true_set = set(ks) if isinstance(op, (ast.Eq, ast.Is, ast.In)) else (set(KINDS) - set(ks) if isinstance(op, (ast.NotEq, ast.IsNot, ast.NotIn)) else None)
+        # where the test stands decides which side is kept: a comprehension filter / an `if` that binds keeps the true side, an `if ..: continue` the false side
+        par = getattr(t, '_parent', None)
+        neg = False
+        top = t
+        while (isinstance(par, ast.UnaryOp) and isinstance(par.op, ast.Not)) or (isinstance(par, ast.BoolOp) and isinstance(par.op, ast.And) and not neg):
+            # a conjunct of the filter: what passes the whole filter passes this test
+            if isinstance(par, ast.UnaryOp):
+                neg = not neg
+            top = par
+            par = getattr(par, '_parent', None)
+        kept = None
+        if true_set is not None:
+            if isinstance(par, ast.comprehension):
+                kept = true_set
+            elif isinstance(par, ast.If) and par.test is top:
+                conj = isinstance(top, ast.BoolOp)
+                skips = all(isinstance(b, (ast.Continue, ast.Pass)) for b in par.body) and any(isinstance(b, ast.Continue) for b in par.body)
+                if skips and not par.orelse and not conj:
+                    kept = set(KINDS) - true_set
+                elif not par.orelse and not any(isinstance(b, (ast.Continue, ast.Break, ast.Return)) for b in ast.walk(par)):
+                    kept = true_set
+            if kept is not None and neg:
+                kept = set(KINDS) - kept
+        if kept is None:
+            R.undecided(rid, construct, 'role of the kind test not recognised', where=where(o, t))
+            continue
+        lost = [k for k in ('POSITIONAL_OR_KEYWORD', 'KEYWORD_ONLY') if k not in kept]
+        R.check(not lost, rid, construct, key_of('kind-filter', sorted(kept)), 'only *args / **kwargs are set aside',
+                f'parameters of kind {", ".join(lost)} are left out by `{src(t)[:60]}`: their omitted defaults are not put into the binding, so a call that omits such a default and a call that '
+                'spells it out get different keys (the method runs twice, two entries are stored)', where=where(o, t))
 
 
 def _guard_tests(cfg, nid):
